@@ -151,7 +151,11 @@ def create_default_dis_func(
         cl_fields = fields_dict(get_origin(cl) or cl)
         for maybe_renamed_attr_name in uniq:
             orig_name = back_map[maybe_renamed_attr_name]
-            if cl_fields[orig_name].default in (NOTHING, MISSING):
+            if (
+                cl_fields[orig_name].default in (NOTHING, MISSING)
+                and cl_fields[orig_name].init
+            ):
+                # Attributes with `init=False` are not part of payloads.
                 break
         else:
             if fallback is None:
